@@ -8,6 +8,7 @@ import Gts.Model.SeqNuc
 import Gts.Props.C18
 import Gts.Lemmas.Locate
 import Gts.Lemmas.MarksOps
+import Gts.Lemmas.MarkGuardOps
 import Gts.Lemmas.Record
 namespace Gts.C05
 open Gts Loc
@@ -134,6 +135,15 @@ theorem reverse_marks_partial (l : Loc) (L : Int) (hw : wf l = true)
     (hg : reverseMarkAbs l L = false) :
     outerMarks (reverse l L) = ((outerMarks l).2, (outerMarks l).1) :=
   outerMarks_of_marks_swap (reverse_marks_aux l L hw hg)
+
+/-- … in particular under the hypotheses of `reverse_den_partial` plus duplicate-freeness — the
+conditions under which the Go oracle evaluates the marker clause (`nodup(d)`, guard line
+`k2.reverse`): when K2 does not fire and no residue is denoted twice, no marker-moving rule can
+fire (`Gts/Lemmas/MarkGuardNodup.lean`). -/
+theorem reverse_marks_nodup_partial (l : Loc) (L : Int) (hw : wf l = true)
+    (hk2 : reverseAbs l L = false) (hnd : (den l).Nodup) :
+    outerMarks (reverse l L) = ((outerMarks l).2, (outerMarks l).1) :=
+  reverse_marks_partial l L hw (reverseMarkAbs_of_nodup l L hw hk2 hnd)
 
 /-- non-vacuity: an odd-arity complement-strand join with both outer markers set, and a
 forward join with a between-site and a point inside -/
